@@ -10,6 +10,9 @@
 //!   pdec … Z <k> … P <j> (<payload> <canonical re-encoding|F>)*j EV …   (prost codec: what prost, called
 //!        directly, makes of every frame payload a naive header walk finds; F = it does not decode)
 //! Observed: one token per poll.  enc: d<hex> | t<code>:<cls> | e<code>:<cls> | p | n
+//!     then E<bits>: `Body::is_end_stream()` before every poll and after the last one, and
+//!     Hd (every `Body::size_hint()` observed at those points was the default: lower 0, no upper)
+//!     or H<lower>/<upper|->,… (all of them)
 //!                                dec: m<hex> | e<code>:<cls> | n | p
 use crate::common::*;
 use bytes::{Buf, BufMut, Bytes};
@@ -425,7 +428,17 @@ fn exec_enc_with(t: &[&str], prost: bool) -> String {
     let waker = noop_waker();
     let mut cx = Context::from_waker(&waker);
     let mut out = Vec::new();
-    for _ in 0..npolls {
+    let mut end_flags = String::new();
+    let mut hints: Vec<(u64, Option<u64>)> = Vec::new();
+    for i in 0..=npolls {
+        // what hyper looks at between polls: a true `is_end_stream` makes it finish the stream
+        // without polling again (rev1 S3), `size_hint` feeds content-length decisions
+        end_flags.push(if body.is_end_stream() { '1' } else { '0' });
+        let h = body.size_hint();
+        hints.push((h.lower(), h.upper()));
+        if i == npolls {
+            break;
+        }
         match body.as_mut().poll_frame(&mut cx) {
             Poll::Pending => out.push("p".to_string()),
             Poll::Ready(None) => out.push("n".to_string()),
@@ -440,6 +453,13 @@ fn exec_enc_with(t: &[&str], prost: bool) -> String {
                 }
             }
         }
+    }
+    out.push(format!("E{}", end_flags));
+    if hints.iter().all(|h| *h == (0, None)) {
+        out.push("Hd".to_string());
+    } else {
+        let l: Vec<String> = hints.iter().map(|(l, u)| format!("{}/{}", l, u.map(|u| u.to_string()).unwrap_or_else(|| "-".into()))).collect();
+        out.push(format!("H{}", l.join(",")));
     }
     out.join(" ")
 }
